@@ -3,9 +3,11 @@
 Grid: model zoo (c13_models) x L x explicit_plus_hc x engine x mixer (one unit each) x every charge sector x initial
 product states x diag_method x combine x chi schedule x sweep budget.  Reference: dense kron/Jordan-Wigner
 Hamiltonian + numpy eigh per charge sector; the returned MPS is contracted to a dense vector by our own code.
-Further unit kinds: excited states (orthogonal_to), segment DMRG, iDMRG and VUMPS against closed-form densities.
+Further unit kinds: first excited state (orthogonal_to), segment DMRG (reference: the Hamiltonian projected on
+left-Schmidt x physical x right-Schmidt space), iDMRG and VUMPS on chains with closed-form energy densities.
 """
 import functools
+import logging
 import traceback
 import warnings
 
@@ -20,6 +22,8 @@ DIAGS = ['default', 'lanczos', 'arpack', 'ED_block', 'ED_all']
 SCHEDULES = [('full', 'long'), ('list', 'long'), ('trunc', 'short'), ('full', 'short')]  # (chi, sweeps)
 TOL = 1e-8
 
+
+# ---------------------------------------------------------------- enumeration
 
 def option_grid(name):
     """(diag, combine, chi, sweeps) tuples: 'full' = whole product; 'checker' = every (diag, schedule) pair with combine
@@ -36,7 +40,7 @@ def option_grid(name):
 def plan(tier):
     """(model, L, #initial product states per sector, sectors 'all'|'central', option grid) entries."""
     if tier == 'quick':
-        return [('xxz', 4, 1, 'all', 'checker'), ('cfermi', 4, 1, 'all', 'checker'), ('spin1', 3, 1, 'all', 'checker')]
+        return [('xxz', 4, 1, 'all', 'checker'), ('cfermi', 4, 1, 'all', 'checker'), ('expdecay', 3, 1, 'all', 'checker'), ('spin1', 3, 1, 'central', 'checker')]
     p = [(m, 4, 2 if m in ('xxz', 'cfermi') else 1, 'all', 'full') for m in Z.MODELS if m not in ('spin1', 'bose')]
     p += [(m, 3, 1, 'all', 'full') for m in ('spin1', 'bose', 'xxz', 'cfermi', 'kitaev')]
     p += [(m, 6, 1, 'central', 'checker') for m in ('xxz', 'cfermi', 'expdecay')]
@@ -44,9 +48,33 @@ def plan(tier):
     return p + [('xxz', 10, 1, 'central', 'mini')]
 
 
+def infinite_cases(tier):
+    """iDMRG / VUMPS configurations on the two chains with closed-form energy density."""
+    out = []
+    for model in ('tfi', 'xxz'):
+        for ephc in (False, True):
+            for ik, kind in enumerate(Z.INF_SITES[model]):
+                if tier == 'quick' and ik != int(ephc):
+                    continue  # quick: conserve alternates with explicit_plus_hc
+                for eng in ENGINES:
+                    for mixer in ([True] if eng.startswith('Single') else [None, True]):
+                        out.append(dict(kind='inf', model=model, L=2, ephc=ephc, site=kind, engine=eng, mixer=mixer, chi=24))
+                for mixer in ([None] if tier == 'quick' and model == 'xxz' else [None, True]):
+                    if not (tier == 'quick' and model == 'xxz' and ephc):
+                        out.append(dict(kind='inf', model=model, L=2, ephc=ephc, site=kind, engine='TwoSiteVUMPSEngine', mixer=mixer, chi=24))
+                if kind == 'spin_none':  # single-site VUMPS needs a charge-free random start of fixed bond dimension
+                    for L in ((1, 2) if model == 'tfi' else (2,)):
+                        out.append(dict(kind='inf', model=model, L=L, ephc=ephc, site=kind, engine='SingleSiteVUMPSEngine', mixer=None, chi=12))
+    return out
+
+
 def units(tier, seed, label):
     us = [('dmrg', m, L, ephc, e, mx, ninit, sectors, og, seed) for m, L, ninit, sectors, og in plan(tier)
           for ephc in (False, True) for e in ENGINES for mx in MIXERS]
+    ortho_models = [('xxz', 4)] if tier == 'quick' else [('xxz', 4), ('cfermi', 4), ('kitaev', 4), ('spin1', 3), ('expdecay', 5)]
+    us += [('ortho', m, L, ephc, e, seed) for m, L in ortho_models for ephc in (False, True) for e in ENGINES]
+    us += [('segment', m, ephc, e, seed) for m in (['xxz'] if tier == 'quick' else ['xxz', 'cfermi', 'j1j2']) for ephc in (False, True) for e in ENGINES]
+    us += [('inf', tuple(sorted(c.items())), seed) for c in infinite_cases(tier)]
     return us
 
 
@@ -74,39 +102,81 @@ def dmrg_options(c):
     return opt
 
 
-def tenpy_frame(tb):
-    """Innermost tenpy function of a traceback (stable call-site name for violation keys)."""
+# ---------------------------------------------------------------- oracle helpers
+
+def exception_finding(e, engine):
+    """Key = exception type @ innermost tenpy function (stable call-site name) : engine."""
     name = '?'
-    for fs in traceback.extract_tb(tb):
+    for fs in traceback.extract_tb(e.__traceback__):
         if '/tenpy/' in fs.filename:
             name = fs.name
-    return name
+    return ('exception:%s@%s:%s' % (type(e).__name__, name, engine), '%s: %s\n%s' % (type(e).__name__, e, traceback.format_exc()[-1200:]))
+
+
+def canonical_finding(psi, eng, c):
+    nt = float(np.max(np.abs(psi.norm_test())))
+    if nt <= TOL:
+        return None
+    if eng.mixer is not None:  # max_sweeps reached while the mixer was still enabled
+        return ('canonical-form:mixer-on-at-end:%s:%s' % (c['engine'], c['mixer']), 'norm_test=%.3g after run (mixer still enabled)' % nt)
+    return ('canonical-form:%s:%s:ephc=%s' % (c['engine'], c['mixer'], c['ephc']), 'norm_test=%.3g after run' % nt)
+
+
+def last_E_trunc(eng, n_updates):
+    return max([abs(x) for x in eng.update_stats['E_trunc'][-n_updates:] if x is not None], default=0.0)
+
+
+# ---------------------------------------------------------------- finite DMRG (ground state and first excited state)
+
+@functools.lru_cache(maxsize=8)
+def exact_ground_state(model, L, ephc, seed, sector, init):
+    """Ground state of the sector as MPS + dense vector, from one fixed configuration, validated against the reference.
+    (None, None) if that run fails -- such a failure is reported by the plain 'dmrg' units."""
+    from tenpy.algorithms import dmrg
+    from tenpy.networks.mps import MPS
+    M, ref = Z.tenpy_model(model, L, ephc, seed), reference(model, L, seed)
+    psi0 = MPS.from_product_state(M.lat.mps_sites(), list(init), 'finite', permute=False)
+    dmrg.TwoSiteDMRGEngine(psi0, M, dict(mixer=True, max_sweeps=40, max_trunc_err=None)).run()
+    v0 = Z.dense_state(psi0)
+    if abs(np.real(np.vdot(v0, ref.H @ v0)) - ref.levels[sector][0]) > 1e-9:
+        return None, None
+    return psi0, v0
 
 
 def run_dmrg_case(c, M=None):
-    """Run one DMRG configuration on the real code and compare with the reference. -> (list of (key, msg), info)."""
+    """Run one finite DMRG configuration on the real code and compare with the reference.
+
+    -> (list of (key, msg), info).  c['level'] = 1 searches the first excited state with `orthogonal_to`."""
     from tenpy.algorithms import dmrg
     from tenpy.networks.mps import MPS
     ref = reference(c['model'], c['L'], c['seed'])
     if M is None:
         M = Z.tenpy_model(c['model'], c['L'], c['ephc'], c['seed'])
     sector = tuple(c['sector'])
+    level = c.get('level', 0)
     tag = '%s:%s:ephc=%s' % (c['engine'], c['mixer'], c['ephc'])
+    if level:
+        tag = 'excited:' + tag
     bad = []
+    kwargs = {}
+    if level:
+        psi0, v0 = exact_ground_state(c['model'], c['L'], c['ephc'], c['seed'], sector, tuple(c['init']))
+        if psi0 is None:
+            return [], dict(outcome='no-ground-state')  # (a failure of that run is reported by the plain 'dmrg' units)
+        kwargs['orthogonal_to'] = [psi0]
     psi = MPS.from_product_state(M.lat.mps_sites(), list(c['init']), 'finite', permute=False)
     try:
-        eng = getattr(dmrg, c['engine'])(psi, M, dmrg_options(c))
+        eng = getattr(dmrg, c['engine'])(psi, M, dmrg_options(c), **kwargs)
         E, psi_ret = eng.run()
+        E_mpo = M.H_MPO.expectation_value(psi)
+        q_after = tuple(int(x) for x in psi.chinfo.make_valid(psi.get_total_charge(True)))
     except Exception as e:  # noqa: BLE001
-        return [('exception:%s@%s:%s' % (type(e).__name__, tenpy_frame(e.__traceback__), tag),
-                 '%s: %s\n%s' % (type(e).__name__, e, traceback.format_exc()[-1200:]))], dict(outcome='exception')
-    E_mpo = M.H_MPO.expectation_value(psi)
-    q_after = tuple(int(x) for x in psi.chinfo.make_valid(psi.get_total_charge(True)))
+        return [exception_finding(e, c['engine'])], dict(outcome='exception')
     if psi_ret is not psi:
         bad.append(('not-in-place:' + tag, 'run() did not return the MPS it was given'))
-    nt = float(np.max(np.abs(psi.norm_test())))
-    if not nt <= TOL:
-        bad.append(('canonical-form:' + tag, 'norm_test=%.3g after run' % nt))
+    f = canonical_finding(psi, eng, c)
+    if f is not None:  # the stored tensors do not define one state; nothing else can be compared
+        return bad + [f], dict(outcome='not-canonical')
     try:
         v = Z.dense_state(psi)
     except ValueError as e:
@@ -119,8 +189,7 @@ def run_dmrg_case(c, M=None):
     if support != {q_after} or (q_after != sector and not free_sector):
         bad.append(('charge-sector:%s:%s' % (c['diag'], tag), 'initial sector %s, get_total_charge %s, dense support %s' % (sector, q_after, sorted(support))))
     E_dense = float(np.real(np.vdot(v, ref.H @ v)) / nrm**2)
-    nsw = 2 * (c['L'] - (2 if c['engine'].startswith('Two') else 1))
-    E_trunc = max([abs(x) for x in eng.update_stats['E_trunc'][-nsw:] if x is not None], default=0.0)
+    E_trunc = last_E_trunc(eng, 2 * (c['L'] - eng.n_optimize))
     if not abs(E - E_dense) <= TOL + E_trunc:
         bad.append(('energy-mismatch:' + tag, 'E=%.12f from run(), <psi|H|psi>=%.12f (dense), reported max E_trunc=%.3g' % (E, E_dense, E_trunc)))
     if not abs(E_mpo - E_dense) <= TOL:
@@ -128,49 +197,187 @@ def run_dmrg_case(c, M=None):
     E0 = ref.E_min if free_sector else ref.levels[sector][0]
     if not min(E, E_dense) >= E0 - 1e-9:
         bad.append(('below-ground-state:' + tag, 'E=%.12f, <H>=%.12f, exact E0(%s)=%.12f' % (E, E_dense, 'any' if free_sector else sector, E0)))
-    dim = len(ref.levels[sector])
+    can_orthogonalize = c['chi'] == 'full' and (c['mixer'] is not None or c['engine'].startswith('Two'))  # else truncated / stuck at chi=1
+    if level and can_orthogonalize and abs(np.vdot(v0, v)) > 1e-6:
+        bad.append(('not-orthogonal:' + tag, '|<psi0|psi>|=%.3g' % abs(np.vdot(v0, v))))
+    target = ref.levels[sector][level]
     demand = c['engine'].startswith('Two') and c['mixer'] is not None and c['chi'] != 'trunc' and c['sweeps'] == 'long' and not free_sector
-    conv = E_dense - E0 <= TOL
+    conv = abs(E_dense - target) <= TOL
     if demand and q_after == sector:
-        ov, gap, _ = ref.ground_overlap(sector, v / nrm)
+        ov, gap, _ = ref.ground_overlap(sector, v / nrm, level)
         if not conv or (gap >= 1e-2 and ov < 1 - 1e-6):
-            bad.append(('not-converged:%s:%s' % (c['diag'], tag), 'E-E0=%.3g, ground space weight %.9f (gap %.3g) after %d sweeps, chi=%s' % (
-                E_dense - E0, ov, gap, eng.sweeps, psi.chi)))
-    return bad, dict(outcome='%s:%s' % ('converged' if conv else 'above', 'mixer-on' if eng.mixer is not None else 'mixer-off'), dim=dim)
+            bad.append(('not-converged:%s:%s' % (c['diag'], tag), 'E-E%d=%.3g, weight in the exact eigenspace %.9f (gap %.3g) after %d sweeps, chi=%s' % (
+                level, E_dense - target, ov, gap, eng.sweeps, psi.chi)))
+    return bad, dict(outcome='%s:%s' % ('converged' if conv else 'above', 'mixer-on' if eng.mixer is not None else 'mixer-off'))
+
+
+def collect(cases, runner, nontrivial):
+    ev = nontriv = 0
+    viol, outcomes, samples = [], set(), []
+    for c in cases:
+        bad, info = runner(c)
+        ev += 1
+        nontriv += bool(nontrivial(c))
+        outcomes.add(info['outcome'])
+        for key, msg in bad:
+            if sum(v['key'] == key for v in viol) < 2:
+                viol.append(dict(key=key, what='%s | %s' % (msg, c), case=c))
+        if not samples:
+            samples.append(c)
+    return dict(evaluations=ev, nontrivial_count=nontriv, outcomes=outcomes, violations=viol, samples=samples)
 
 
 def run_dmrg_unit(unit):
     _, model, L, ephc, engine, mixer, ninit, sectors, og, seed = unit
     ref = reference(model, L, seed)
     M = Z.tenpy_model(model, L, ephc, seed)
-    ev = nontriv = 0
-    viol, outcomes, samples = [], set(), []
     mid = len(ref.sectors) // 2
-    for sector in (ref.sectors if sectors == 'all' else ref.sectors[max(mid - 1, 0):mid + 2]):
-        for init in pick_inits(ref, sector, ninit):
-            for diag, combine, chi, sweeps in option_grid(og):
-                c = dict(kind='dmrg', model=model, L=L, ephc=ephc, seed=seed, engine=engine, mixer=mixer, diag=diag,
-                         combine=combine, chi=chi, sweeps=sweeps, sector=list(sector), init=init)
-                bad, info = run_dmrg_case(c, M)
-                ev += 1
-                nontriv += len(ref.levels[sector]) > 1
-                outcomes.add(info['outcome'])
-                for key, msg in bad:
-                    if sum(v['key'] == key for v in viol) < 2:
-                        viol.append(dict(key=key, what='%s | %s' % (msg, c), case=c))
-                if not samples:
-                    samples.append(c)
-    return dict(evaluations=ev, nontrivial_count=nontriv, outcomes=outcomes, violations=viol, samples=samples)
+    cases = [dict(kind='dmrg', model=model, L=L, ephc=ephc, seed=seed, engine=engine, mixer=mixer, diag=diag, combine=combine,
+                  chi=chi, sweeps=sweeps, sector=list(sector), init=init)
+             for sector in (ref.sectors if sectors == 'all' else ref.sectors[max(mid - 1, 0):mid + 2])
+             for init in pick_inits(ref, sector, ninit) for diag, combine, chi, sweeps in option_grid(og)]
+    return collect(cases, lambda c: run_dmrg_case(c, M), lambda c: len(ref.levels[tuple(c['sector'])]) > 1)
+
+
+def run_ortho_unit(unit):
+    """First excited state of every sector with >= 3 states; the spectrum is shifted to negative energies (documented
+    requirement of `orthogonal_to`: the projected-out state has eigenvalue 0)."""
+    _, model, L, ephc, engine, seed = unit
+    model += '_neg'
+    ref = reference(model, L, seed)
+    assert max(w[-1] for w in ref.levels.values()) < -0.5
+    M = Z.tenpy_model(model, L, ephc, seed)
+    cases = [dict(kind='dmrg', level=1, model=model, L=L, ephc=ephc, seed=seed, engine=engine, mixer=mixer, diag=diag, combine=combine,
+                  chi=chi, sweeps='long', sector=list(sector), init=pick_inits(ref, sector, 1)[0])
+             for sector in ref.sectors if len(ref.levels[sector]) >= 3
+             for mixer in (None, True) for diag in ('default', 'lanczos', 'arpack') for combine in (False, True) for chi in ('full', 'trunc')]
+    return collect(cases, lambda c: run_dmrg_case(c, M), lambda c: True)
+
+
+# ---------------------------------------------------------------- segment DMRG
+
+def run_segment_case(c):
+    """Sites 1..4 of a 6-site chain are optimised for H' (other couplings) in the frozen Schmidt bases of the ground state
+    of H.  Reference: H' projected on (left Schmidt states) x (segment) x (right Schmidt states), per charge sector."""
+    from tenpy.algorithms import dmrg
+    from tenpy.networks.mpo import MPOEnvironment
+    from tenpy.networks.mps import MPS
+    L, first, last = 6, 1, 4
+    ref = reference(c['model'], L, c['seed'])
+    ref2 = reference(c['model'], L, c['seed'] + 1000)
+    sector = ref.sectors[len(ref.sectors) // 2]
+    M = Z.tenpy_model(c['model'], L, c['ephc'], c['seed'])
+    M2 = Z.tenpy_model(c['model'], L, c['ephc'], c['seed'] + 1000)
+    psi0, v0 = exact_ground_state(c['model'], L, c['ephc'], c['seed'], sector, tuple(pick_inits(ref, sector, 1)[0]))
+    if psi0 is None:
+        return [], dict(outcome='no-ground-state')
+    psi0 = psi0.copy()
+    psi0.canonical_form()
+    # frozen bases: left Schmidt states from A tensors of sites < first, right ones from B tensors of sites > last
+    d = ref.d
+    left = np.ones((1, 1))
+    for i in range(first):
+        left = np.tensordot(left, psi0.get_B(i, 'A').transpose(['vL', 'p', 'vR']).to_ndarray(), axes=(-1, 0)).reshape(-1, psi0.chi[i])
+    right = np.ones((1, 1))
+    for i in range(L - 1, last, -1):
+        right = np.tensordot(psi0.get_B(i, 'B').transpose(['vL', 'p', 'vR']).to_ndarray(), right, axes=(-1, 0)).reshape(psi0.chi[i - 1], -1)
+    V = np.einsum('la,st,br->lsrabt', left, np.eye(d**(last - first + 1)), right)
+    V = V.transpose(0, 1, 2, 3, 5, 4).reshape(d**L, -1)  # columns (a, s_segment, b)
+    col_q = [ref.charges[int(np.argmax(np.abs(V[:, k])))] for k in range(V.shape[1])]
+    cols = [k for k, q in enumerate(col_q) if q == sector]
+    Vs = V[:, cols]
+    E_ref = np.linalg.eigvalsh(Vs.conj().T @ ref2.H @ Vs)[0]
+    tag = '%s:%s:ephc=%s' % (c['engine'], c['mixer'], c['ephc'])
+    try:
+        env = MPOEnvironment(psi0, M2.H_MPO, psi0)
+        init_env = env.get_initialization_data(first, last)
+        psi = psi0.extract_segment(first, last)
+        eng = getattr(dmrg, c['engine'])(psi, M2.extract_segment(first, last), dmrg_options(c), resume_data={'init_env_data': init_env})
+        E, _ = eng.run()
+        nt = float(np.max(np.abs(psi.norm_test())))
+    except Exception as e:  # noqa: BLE001
+        return [exception_finding(e, c['engine'])], dict(outcome='exception')
+    bad = []
+    if nt > TOL:
+        bad.append(('segment:canonical-form:' + tag, 'norm_test=%.3g' % nt))
+    if not E >= E_ref - 1e-9:
+        bad.append(('segment:below-ground-state:' + tag, 'E=%.12f < lowest eigenvalue %.12f of H projected on the segment space' % (E, E_ref)))
+    conv = E - E_ref <= TOL
+    if c['engine'].startswith('Two') and c['mixer'] is not None and c['chi'] == 'full' and not conv:
+        bad.append(('segment:not-converged:%s:%s' % (c['diag'], tag), 'E-E_ref=%.3g after %d sweeps' % (E - E_ref, eng.sweeps)))
+    return bad, dict(outcome='converged' if conv else 'above')
+
+
+def run_segment_unit(unit):
+    _, model, ephc, engine, seed = unit
+    cases = [dict(kind='segment', model=model, ephc=ephc, seed=seed, engine=engine, mixer=mixer, diag=diag, combine=combine, chi=chi, sweeps='long')
+             for mixer in MIXERS for diag in ('default', 'lanczos') for combine in (False, True) for chi in ('full', 'trunc')]
+    return collect(cases, run_segment_case, lambda c: True)
+
+
+# ---------------------------------------------------------------- infinite chains: iDMRG and VUMPS
+
+def run_inf_case(c):
+    from tenpy.algorithms import dmrg, vumps
+    from tenpy.networks.mps import MPS
+    M = Z.infinite_model(c['model'], c['L'], c['ephc'], c['site'])
+    exact = Z.exact_density(c['model'])
+    sites = M.lat.mps_sites()
+    vu = 'VUMPS' in c['engine']
+    tag = '%s:%s:%s:ephc=%s' % (c['engine'], c['mixer'], c['model'], c['ephc'])
+    try:
+        if c['engine'] == 'SingleSiteVUMPSEngine':
+            np.random.seed(4321 + c['seed'])  # from_desired_bond_dimension draws from the global numpy generator
+            psi = MPS.from_desired_bond_dimension(sites, c['chi'], bc='infinite')
+        else:
+            psi = MPS.from_product_state(sites, [0, 1][:c['L']] if c['model'] == 'xxz' else [0] * c['L'], 'infinite', permute=False)
+        opt = dict(mixer=c['mixer'], trunc_params=dict(chi_max=c['chi'], svd_min=1e-10), max_sweeps=60 if vu else 200, max_trunc_err=None)
+        if vu:
+            opt.update(max_E_err=1e-12, max_S_err=1e-8)
+        eng = getattr(vumps if vu else dmrg, c['engine'])(psi, M, opt)
+        E, psi = eng.run()
+        nt = float(np.max(np.abs(psi.norm_test())))
+        E_mpo = M.H_MPO.expectation_value(psi)
+        E_own = Z.infinite_energy_density(c['model'], psi)
+    except Exception as e:  # noqa: BLE001
+        return [exception_finding(e, c['engine'])], dict(outcome='exception')
+    bad = []
+    if nt > TOL:
+        bad.append(('infinite:canonical-form:' + tag, 'norm_test=%.3g' % nt))
+        return bad, dict(outcome='not-canonical')
+    E_trunc = 0.0 if vu else last_E_trunc(eng, 4 * c['L'])
+    stopped_converged = eng.sweeps < opt['max_sweeps']  # (the iDMRG energy density is an estimate that is exact only at convergence)
+    if stopped_converged and abs(E - E_own) > 1e-6 + E_trunc:
+        bad.append(('infinite:energy-mismatch:' + tag, 'E=%.10f from run(), own bond-energy evaluation of the returned state %.10f' % (E, E_own)))
+    if abs(E_mpo - E_own) > TOL:
+        bad.append(('infinite:mpo-expectation:' + tag, 'H_MPO.expectation_value=%.10f, own evaluation %.10f' % (E_mpo, E_own)))
+    if E_own < exact - 1e-9:
+        bad.append(('infinite:below-ground-state:' + tag, 'energy density %.12f < exact %.12f' % (E_own, exact)))
+    conv = E_own - exact <= 1e-6
+    if not conv and (vu or (c['engine'].startswith('Two') and c['mixer'] is not None)):
+        bad.append(('infinite:not-converged:' + tag, 'energy density %.10f, exact %.10f, chi=%s after %d sweeps' % (E_own, exact, psi.chi, eng.sweeps)))
+    return bad, dict(outcome='converged' if conv else 'above')
+
+
+def run_inf_unit(unit):
+    c = dict(unit[1], seed=unit[2])
+    return collect([c], run_inf_case, lambda c: True)
+
+
+RUNNERS = {'dmrg': run_dmrg_unit, 'ortho': run_ortho_unit, 'segment': run_segment_unit, 'inf': run_inf_unit}
+CASE_RUNNERS = {'dmrg': run_dmrg_case, 'segment': run_segment_case, 'inf': run_inf_case}
 
 
 def run_unit(unit):
+    logging.getLogger('tenpy').setLevel(logging.ERROR)  # (run_unit must not print)
     with warnings.catch_warnings():
         warnings.simplefilter('ignore')
-        return {'dmrg': run_dmrg_unit}[unit[0]](unit)
+        return RUNNERS[unit[0]](unit)
 
 
 def replay(case):
+    logging.getLogger('tenpy').setLevel(logging.ERROR)
     with warnings.catch_warnings():
         warnings.simplefilter('ignore')
-        bad, _ = {'dmrg': run_dmrg_case}[case['kind']](case)
+        bad, _ = CASE_RUNNERS[case['kind']](case)
     return dict(evaluations=1, violations=[dict(key=k, what=m, case=case) for k, m in bad])
